@@ -7,7 +7,8 @@
  * glibc cannot be called inside the solver; instead the interpreter (and the format assembler put_directive()) is cross-checked
  * natively against glibc snprintf on every run (-DC19_XCHECK, see props/C19.py:prepare).
  *
- *   harness_parse  (A) printf_format alone with a recording agent: every directive of the grammar -> options handed to the agent
+ *   harness_parse  (A) printf_format alone with a recording agent: directive -> options handed to the agent.  With all pieces solver-chosen this does not
+ *                      finish (see props/C19.py); it is kept as a translator-validation entry (native differential runs), not as a solver query
  *   harness_opts   (B) do_printf_ints / do_printf_chars alone with solver-chosen options, conversion and length modifier fixed per query
  *   harness_layout (C) the whole pipeline on formats whose shape is pinned per query (PINS), argument values solver-chosen
  *   harness_poparg     pop_arg histories (sequential / positional cache)
